@@ -79,6 +79,97 @@ impl Obs {
 
 pub type RunFn<C> = fn(&C, &mut Obs) -> Result<(), String>;
 
+static ISOLATE: AtomicBool = AtomicBool::new(false);
+
+/// isolate mode: every case is executed in a child process (`sev exec-case`), so that a crash of the process
+/// (stack overflow, abort) is attributed to the case that caused it instead of killing the whole check
+pub fn set_isolate(b: bool) {
+    ISOLATE.store(b, Ordering::SeqCst);
+}
+pub fn is_isolate() -> bool {
+    ISOLATE.load(Ordering::SeqCst)
+}
+
+fn leak(s: &str) -> &'static str {
+    Box::leak(s.to_string().into_boxed_str())
+}
+
+pub fn outcome_to_json(o: &CaseOutcome) -> serde_json::Value {
+    let obs_json = |obs: &Obs| {
+        serde_json::json!({
+            "labels": obs.labels.iter().collect::<Vec<_>>(),
+            "nontrivial": obs.nontrivial,
+            "skip": obs.skip,
+            "comparisons": obs.comparisons,
+            "counters": obs.counters,
+        })
+    };
+    match o {
+        CaseOutcome::Pass(obs) => serde_json::json!({"kind": "pass", "obs": obs_json(obs)}),
+        CaseOutcome::Fail(m, obs) => serde_json::json!({"kind": "fail", "msg": m, "obs": obs_json(obs)}),
+        CaseOutcome::Panic(m, obs) => serde_json::json!({"kind": "panic", "msg": m, "obs": obs_json(obs)}),
+        CaseOutcome::Timeout => serde_json::json!({"kind": "timeout"}),
+    }
+}
+
+pub fn outcome_from_json(v: &serde_json::Value) -> CaseOutcome {
+    let mut obs = Obs::default();
+    if let Some(o) = v.get("obs") {
+        for l in o["labels"].as_array().cloned().unwrap_or_default() {
+            if let Some(s) = l.as_str() {
+                obs.labels.insert(leak(s));
+            }
+        }
+        obs.nontrivial = o["nontrivial"].as_bool().unwrap_or(false);
+        obs.skip = o["skip"].as_str().map(|s| s.to_string());
+        obs.comparisons = o["comparisons"].as_u64().unwrap_or(0);
+        if let Some(m) = o["counters"].as_object() {
+            for (k, n) in m {
+                obs.counters.insert(leak(k), n.as_u64().unwrap_or(0));
+            }
+        }
+    }
+    let msg = v["msg"].as_str().unwrap_or("").to_string();
+    match v["kind"].as_str() {
+        Some("pass") => CaseOutcome::Pass(obs),
+        Some("fail") => CaseOutcome::Fail(msg, obs),
+        Some("panic") => CaseOutcome::Panic(msg, obs),
+        _ => CaseOutcome::Timeout,
+    }
+}
+
+/// executes the case in a child process; a child that dies (signal, abort) counts as a panic of the case
+pub fn exec_case_isolated(prop: &str, stage: &str, case: &serde_json::Value, timeout_s: u64) -> CaseOutcome {
+    use std::io::Write;
+    let exe = match std::env::current_exe() {
+        Ok(e) => e,
+        Err(_) => return CaseOutcome::Timeout,
+    };
+    let input = serde_json::json!({"property": prop, "stage": stage, "case": case}).to_string();
+    let child = std::process::Command::new(exe)
+        .arg("exec-case")
+        .stdin(std::process::Stdio::piped())
+        .stdout(std::process::Stdio::piped())
+        .stderr(std::process::Stdio::piped())
+        .spawn();
+    let Ok(mut child) = child else { return CaseOutcome::Timeout };
+    let _ = child.stdin.take().unwrap().write_all(input.as_bytes());
+    let _ = timeout_s;
+    match child.wait_with_output() {
+        Ok(o) => {
+            if let Ok(v) = serde_json::from_slice::<serde_json::Value>(&o.stdout) {
+                if v.get("kind").is_some() {
+                    return outcome_from_json(&v);
+                }
+            }
+            let err = String::from_utf8_lossy(&o.stderr);
+            let what = err.lines().find(|l| l.contains("overflowed its stack") || l.contains("fatal runtime error") || l.contains("panicked")).unwrap_or("").to_string();
+            CaseOutcome::Panic(format!("panic: the process executing the case died ({:?}) {}", o.status, what), Obs::default())
+        }
+        Err(e) => CaseOutcome::Panic(format!("panic: could not wait for the child process: {e}"), Obs::default()),
+    }
+}
+
 pub enum Source<C> {
     /// proptest strategy, number of cases (total over all shards)
     Random(Arc<dyn Fn() -> BoxedStrategy<C> + Send + Sync>, u32),
@@ -262,6 +353,7 @@ pub fn seed_bytes(seed: u64, prop: &str, stage: &str, shard: usize) -> [u8; 32] 
 }
 
 struct ShardCtx<'a, C> {
+    prop: &'a str,
     stage: &'a Stage<C>,
     stats: StageStats,
     stop: &'a AtomicBool,
@@ -278,7 +370,11 @@ impl<'a, C: Clone + Send + Debug + Serialize + 'static> ShardCtx<'a, C> {
             let _ = std::fs::create_dir_all("/tmp/sev-trace");
             let _ = std::fs::write(format!("/tmp/sev-trace/{}.json", self.shard), serde_json::to_string(&v).unwrap());
         }
-        let out = exec_case(case, self.stage.run, self.stage.case_timeout_s);
+        let out = if is_isolate() {
+            exec_case_isolated(self.prop, self.stage.name, &serde_json::to_value(case).unwrap_or(serde_json::Value::Null), self.stage.case_timeout_s)
+        } else {
+            exec_case(case, self.stage.run, self.stage.case_timeout_s)
+        };
         let dt = t0.elapsed().as_secs_f64();
         if dt > 10.0 && self.stats.slow_cases.len() < 3 {
             self.stats.slow_cases.push(format!("{:.0}s: {}", dt, (self.stage.render)(case)));
@@ -374,6 +470,7 @@ fn run_shard<C: Clone + Send + Debug + Serialize + 'static>(
     scale: u32,
 ) -> StageStats {
     let mut ctx = ShardCtx {
+        prop,
         stage,
         stats: StageStats {
             stage: stage.name.to_string(),
@@ -475,6 +572,8 @@ pub trait DynStage: Send + Sync {
     fn name(&self) -> &'static str;
     fn run_all(&self, prop: &str, seed: u64, max_shrink: u32, scale: u32) -> StageStats;
     fn replay(&self, case: &serde_json::Value) -> Result<(Result<(), String>, String), String>;
+    /// child-process entry of isolate mode: run the case here and describe the outcome
+    fn exec_json(&self, case: &serde_json::Value) -> serde_json::Value;
 }
 
 impl<C> DynStage for Stage<C>
@@ -507,6 +606,13 @@ where
             total.merge(r);
         }
         total
+    }
+
+    fn exec_json(&self, case: &serde_json::Value) -> serde_json::Value {
+        match serde_json::from_value::<C>(case.clone()) {
+            Ok(c) => outcome_to_json(&exec_case(&c, self.run, self.case_timeout_s)),
+            Err(e) => serde_json::json!({"kind": "fail", "msg": format!("INCONCLUSIVE: cannot decode case: {e}")}),
+        }
     }
 
     fn replay(&self, case: &serde_json::Value) -> Result<(Result<(), String>, String), String> {
